@@ -24,7 +24,8 @@ EXPLANATION = (
     ' (R9) snapshot_log producers keep commit order (C09.R10); (R10) every create_manifest_file(existing_files=X) site carries DataFiles whose added_snapshot_id / sequence_number come from their source; (R11) who-may-delete census (C09.R3).'
     ' R1 also decides, by scenario, that retention re-adds the current snapshot whenever it is missing from the kept set.'
     ' (R15) a delete reads EVERY manifest of the base snapshot: a manifest is carried over unchanged only after read_manifest_file in the same iteration.'
-    ' (R16) numbers (sequence 0, schema id 0, cutoffs) are never truth-tested; (R17) itertools.groupby only over input sorted by the same key; R1 evaluates the expire predicate by scenario (current kept; a snapshot AT the cutoff kept), also through id sets.')
+    ' (R16) numbers (sequence 0, schema id 0, cutoffs) are never truth-tested; (R17) itertools.groupby only over input sorted by the same key; R1 evaluates the expire predicate by scenario (current kept; a snapshot AT the cutoff kept), also through id sets.'
+    ' R0 also walks a parent CYCLE by scenario (the repointed parent is a survivor or None, never a removed id); R6: a metadata-log bound of 1 trims the log.')
 NOT_DECIDED = ("the invariants over operation histories (parents are true ancestors, log order, retention with out-of-order "
                "timestamps) at run time")
 
